@@ -47,18 +47,25 @@ def castleRook (g : Game) (rook from_ to_ : Nat) : Game :=
   else
     { g with blackOcc := unsetBit (setBit g.blackOcc to_) from_, allOcc := unsetBit (setBit g.allOcc to_) from_ }
 
-/-- the part of `make_search_move` before the check test -/
-def makePre (g : Game) (m : Move) : Game :=
+/-- `make_search_move`, step 1: take the en-passant and castling keys out of the key -/
+def preKeys (g : Game) : Game :=
+  let g := if g.ep != SQNONE then { g with key := g.key ^^^ epKey g.ep } else g
+  { g with key := g.key ^^^ castleKey g.castling }
+
+/-- step 2: move the piece (piece set, key, combined occupancy) -/
+def preMove (g : Game) (m : Move) : Game :=
   let fromSq := m.fromSq
   let toSq := m.toSq
   let piece := m.piece
-  let g := if g.ep != SQNONE then { g with key := g.key ^^^ epKey g.ep } else g
-  let g := { g with key := g.key ^^^ castleKey g.castling }
   let g := g.setBB piece (unsetBit (g.bb piece) fromSq)
   let g := { g with key := g.key ^^^ pieceKey piece fromSq }
   let g := g.setBB piece (setBit (g.bb piece) toSq)
   let g := { g with key := g.key ^^^ pieceKey piece toSq }
-  let g := { g with allOcc := setBit (unsetBit g.allOcc fromSq) toSq }
+  { g with allOcc := setBit (unsetBit g.allOcc fromSq) toSq }
+
+/-- step 3: remove what was captured (en passant: the pawn behind the target square) -/
+def preCapture (g : Game) (m : Move) : Game :=
+  let toSq := m.toSq
   if m.isCapture then
     if m.isEnpassant then
       if g.white then
@@ -78,37 +85,56 @@ def makePre (g : Game) (m : Move) : Game :=
       | (g', none) => g'
   else g
 
-/-- the part of `make_search_move` after the check test -/
-def makePost (g : Game) (m : Move) : Game :=
-  let fromSq := m.fromSq
+/-- the part of `make_search_move` before the check test -/
+def makePre (g : Game) (m : Move) : Game := preCapture (preMove (preKeys g) m) m
+
+/-- after the check test, step 1: the mover's colour occupancy -/
+def postOcc (g : Game) (m : Move) : Game :=
+  if g.white then { g with whiteOcc := setBit (unsetBit g.whiteOcc m.fromSq) m.toSq }
+  else { g with blackOcc := setBit (unsetBit g.blackOcc m.fromSq) m.toSq }
+
+/-- step 2: the half-move clock (a `u8`) -/
+def postClock (g : Game) (m : Move) : Game :=
+  if m.piece == WP || m.piece == BP || m.isCapture then { g with halfMoves := 0 }
+  else { g with halfMoves := (g.halfMoves + 1) % 256 }
+
+/-- step 3: promotion (swap the pawn for the new piece) or castling (the rook hops) -/
+def postSpecial (g : Game) (m : Move) : Game :=
   let toSq := m.toSq
   let piece := m.piece
   let promotion := m.promotion
-  let g := if g.white then { g with whiteOcc := setBit (unsetBit g.whiteOcc fromSq) toSq }
-           else { g with blackOcc := setBit (unsetBit g.blackOcc fromSq) toSq }
-  let g := if piece == WP || piece == BP || m.isCapture then { g with halfMoves := 0 }
-           else { g with halfMoves := (g.halfMoves + 1) % 256 }
-  let g :=
-    if promotion != PNONE then
-      let g := g.setBB promotion (setBit (g.bb promotion) toSq)
-      let g := g.setBB piece (unsetBit (g.bb piece) toSq)
-      { g with key := g.key ^^^ pieceKey piece toSq ^^^ pieceKey promotion toSq }
-    else if m.isCastling then
-      if toSq == 62 then castleRook g WR 63 61
-      else if toSq == 58 then castleRook g WR 56 59
-      else if toSq == 6 then castleRook g BR 7 5
-      else if toSq == 2 then castleRook g BR 0 3
-      else g   -- `unreachable!()` in Rust
-    else g
-  let g :=
-    if m.isDoublePush then
-      if g.white then { g with ep := toSq + 8, key := g.key ^^^ epKey (toSq + 8) }
-      else { g with ep := toSq - 8, key := g.key ^^^ epKey (toSq - 8) }
-    else { g with ep := SQNONE }
-  let c := g.castling &&& (Gen.CASTLING_RIGHTS.getD toSq 0 &&& Gen.CASTLING_RIGHTS.getD fromSq 0)
-  let g := { g with castling := c, key := g.key ^^^ castleKey c }
+  if promotion != PNONE then
+    let g := g.setBB promotion (setBit (g.bb promotion) toSq)
+    let g := g.setBB piece (unsetBit (g.bb piece) toSq)
+    { g with key := g.key ^^^ pieceKey piece toSq ^^^ pieceKey promotion toSq }
+  else if m.isCastling then
+    if toSq == 62 then castleRook g WR 63 61
+    else if toSq == 58 then castleRook g WR 56 59
+    else if toSq == 6 then castleRook g BR 7 5
+    else if toSq == 2 then castleRook g BR 0 3
+    else g   -- `unreachable!()` in Rust
+  else g
+
+/-- step 4: the en-passant square -/
+def postEp (g : Game) (m : Move) : Game :=
+  if m.isDoublePush then
+    if g.white then { g with ep := m.toSq + 8, key := g.key ^^^ epKey (m.toSq + 8) }
+    else { g with ep := m.toSq - 8, key := g.key ^^^ epKey (m.toSq - 8) }
+  else { g with ep := SQNONE }
+
+/-- step 5: castling rights -/
+def postRights (g : Game) (m : Move) : Game :=
+  let c := g.castling &&& (Gen.CASTLING_RIGHTS.getD m.toSq 0 &&& Gen.CASTLING_RIGHTS.getD m.fromSq 0)
+  { g with castling := c, key := g.key ^^^ castleKey c }
+
+/-- step 6: full-move number (a `u16`) and side to move -/
+def postSide (g : Game) : Game :=
   let g := if !g.white then { g with fullMoves := (g.fullMoves + 1) % 65536 } else g
   { g with white := !g.white, key := g.key ^^^ SIDE_KEY }
+
+/-- the part of `make_search_move` after the check test -/
+def makePost (g : Game) (m : Move) : Game :=
+  postSide (postRights (postEp (postSpecial (postClock (postOcc g m) m) m) m) m)
 
 /-- the position part of `make_search_move`: `none` where Rust returns `false` -/
 def makeCore (g : Game) (m : Move) : Option Game :=
